@@ -30,7 +30,7 @@ class Contract:
                  lets=None, yields=None, variants=None, prop=None, defs=None, instantiate=None,
                  raises_only_if=None, replay=None, setup=None, pure=False, callee_contracts=None,
                  ghost_after=None, ghost_entry=None, enclosing=None, instantiate_entry=None,
-                 instantiate_call=None, lemmas=None, uses=None, blocks=None, decreases=None, ghost_exit=None, local_ensures=None, doc=''):
+                 instantiate_call=None, lemmas=None, uses=None, blocks=None, decreases=None, ghost_exit=None, local_ensures=None, forget=None, doc=''):
         self.qualname = qualname
         self.params = dict(params or {})
         self.requires = _labelled(requires, 'pre')
@@ -65,6 +65,9 @@ class Contract:
         self.blocks = list(blocks or [])   # statement contracts: [{'first','last','assigns','raises','modifies','label'}]
         # proved in the body, not exported to call sites (clauses over per-path engine state such as assigned()/attr())
         self.local_ensures = _labelled(local_ensures, 'local')
+        # proof structuring: at a call of <callee> keep only these (tagged) quantified hypotheses; the callee's
+        # postcondition re-establishes what is needed afterwards (hypotheses are only dropped: sound)
+        self.forget = dict(forget or {})
         self.ghost_exit = list(ghost_exit or [])   # [(object expr, ghost field, value expr)]: ghost assignments on normal return
         self.decreases = decreases         # termination measure of a recursive function (Int expression over the parameters)
         self.enclosing = enclosing    # params of the enclosing function: its body is run to bind the closure
@@ -463,6 +466,9 @@ def apply_contract(ex, callee, fn, args, kwargs):
         # recursive call: the termination measure is non-negative and strictly smaller
         m = as_int(sub.spec_eval(callee.decreases, env))
         prove(ex, 'call:%s.decreases@%s' % (short, ex.cur_line), z3.And(m >= 0, m < ex.root.entry_measure))
+    if ex.contract is not None and callee.qualname in getattr(ex.contract, 'forget', {}):
+        keep = set(ex.contract.forget[callee.qualname])
+        P.pc = [f for f in P.pc if not has_quant(f) or P.tag_of(f) in keep]
     pre = P.snapshot()
     sub.old_env = env
     # objects the callee allocates get ids at or above the caller's current
@@ -482,7 +488,7 @@ def apply_contract(ex, callee, fn, args, kwargs):
         for name, expr in callee.lets.items():
             env2[name] = sub.spec_eval(expr, env2, pre)
         for lab, expr in callee.ensures.items():
-            P.assume(sub.spec_bool(expr, env2, pre))
+            P.assume(sub.spec_bool(expr, env2, pre), tag=lab)
         if ex.contract is not None:
             for (qn, lab), blist in ex.contract.instantiate_call.items():
                 if qn == callee.qualname:
@@ -501,7 +507,7 @@ def apply_contract(ex, callee, fn, args, kwargs):
 
 # ------------------------------------------------------------------ verifying
 
-def verify_function(world, contract, max_paths=4000):
+def verify_function(world, contract, max_paths=4000, only_prefix=None):
     from .executor import Executor
     res = Result(contract.qualname)
     t0 = time.time()
@@ -516,7 +522,8 @@ def verify_function(world, contract, max_paths=4000):
     res.file = module.path
     res.sha256 = module.sha256
     res.span = (node.lineno, node.end_lineno)
-    work = [[]]
+    work = [[]] if only_prefix is None else [list(only_prefix)]
+    res.new_prefixes = []
     seen_names = {}
     while work:
         prefix = work.pop()
@@ -542,7 +549,11 @@ def verify_function(world, contract, max_paths=4000):
         res.obligations += P.obligations
         res.dropped |= ex.dropped
         res.calls |= set(ex.call_log)
-        work.extend(P.new_prefixes)
+        if only_prefix is None:
+            work.extend(P.new_prefixes)
+        else:
+            # single-path mode (the driver schedules the paths of one function over its process pool)
+            res.new_prefixes = [list(x) for x in P.new_prefixes]
     res.seconds = time.time() - t0
     return res
 
